@@ -151,6 +151,16 @@ def build_data(case):
 
 def build_vocab(case):
     f, vs = case["vocab_form"], case["vectors"]
+    if case.get("vdtype") == "int":      # integer-typed vocabulary arrays / lists of Python ints (values are integral)
+        iv = [[int(x) for x in r] for r in vs]
+        if f == "array2":
+            return np.array(iv, dtype=np.int64).reshape(len(iv), case["vd"])
+        if f == "list_arrays":
+            return [np.array(r, dtype=np.int32) for r in iv]
+        if f == "tuple_arrays":
+            return tuple(np.array(r, dtype=np.int64) for r in iv)
+        if f == "list_lists":
+            return iv
     if f == "vocabulary":
         v = spa.Vocabulary(case["vd"], strict=False)
         for i, r in enumerate(vs):
@@ -318,6 +328,14 @@ def sim_cases(ctx, tier):
                                 yield {"op": "sim", "normalize": nz, "data_form": df, "d": d,
                                        "data": rows if df == "series" else rows[0],
                                        "vocab_form": form, "vd": d, "vectors": vs, "dtype": "f32"}
+                                continue
+                            if not nz and form in ("array2", "list_arrays", "tuple_arrays", "list_lists") and n >= 1 \
+                                    and rng.random() < 0.3:
+                                # integer-typed vocabulary vectors meet real-valued data: still exactly the dot products
+                                vs = [[float(rng.randint(-3, 3)) for _ in range(d)] for _ in range(n)]
+                                yield {"op": "sim", "normalize": False, "data_form": df, "d": d,
+                                       "data": rows if df == "series" else rows[0],
+                                       "vocab_form": form, "vd": d, "vectors": vs, "vdtype": "int"}
                                 continue
                             if nz and rng.random() < 0.2:
                                 # very small but exactly representable magnitudes: the cosine does not depend on scale
